@@ -453,16 +453,15 @@ MANIFEST = {
             "then patches, each class in insertion order; (2) node editor algebra on trees of any size - set-then-get, last write wins, "
             "@before/@after insertion, append associativity for lists and strings, idempotence of merging plain entries; (3) a directive-free "
             "document compiles to itself (specification; for the implemented ConvertFromYaml: no dependency registered, region reads back as the "
-            "document); (4) no write through sharing - a write through a fresh copy-on-write reference changes no pre-existing node except the "
-            "anchor slot's container, so every tree not containing it reads back unchanged and other roots do not move; (5) termination for ALL "
+            "document); (4) no write through sharing - for the whole of ResolveDependencies on every document set (nested compilations included) a pre-existing node changes only if it is the container of the target slot of a pending dependency, so a tree holding no such container (a compiled document, an included source) reads back unchanged (C14_no_write_through_sharing, C14_sources_untouched; per edit, for any patch map and any include with sibling keys: C14_patch/include_writes_only_its_slot); "
+            "(5) termination for ALL "
             "document sets, cyclic included - ResolveDependencies of compile_impl (port of Compile/Link with the production plugin chain) never "
             "exhausts fuel above the explicit bound 2*(5+#scalars)*(1+max #nodes), by the duplicate-free resolve chain inside a static path universe; "
             "(6) compile_impl = compile_spec computed on the repository's fixtures.  Tie: both models are extracted and diffed on every run against the "
             "real config_builder component (production plugins, several compile orders in one process, memory tree and saved file) over generated "
             "document sets from the directive grammar; compile_spec is the oracle of the failing-input search.",
     "note": "Partial: impl_refines_spec is proved only on computed fixtures (C14_impl_refines_spec_full is stated, not proved; the general claim rests on "
-            "the correspondence of both extracted models with librime); sources_untouched is proved for a single write through a fresh ConfigCowRef chain, "
-            "not lifted through MergeTree's nested edits (index-shifting keys such as '@before last' in the middle of a path break the ownership invariant); "
+            "the correspondence of both extracted models with librime); sources_untouched is proved on heap nodes for ResolveDependencies (the link-time plugin edits are covered per edit, not composed); "
             "termination is proved for the resolve recursion; the fuel of walks down the heap (MergeTree recursion, readback) is a separate flag whose "
             "sufficiency needs heap acyclicity, not proved (C14_compile_total_full stated). 'Cyclic' is the specification's own flag (a reference into a node "
             "under compilation whose own directives are not vacuous); for such sets and for erroneous sets only termination and agreement with compile_impl "
